@@ -387,6 +387,12 @@ def compile_and_instrument(chk, r, tier, inline_all=False, loop_contracts=None):
     for g in unit.cfg.get('override', {}).get('drop', []):
         if g != chk.fn and g not in repl and contract_clauses(r.pp_text, g) is not None:
             repl.append(g)
+    # unit-wide list of proved contracts that are expensive in line (recursion, loops): replaced in every check unless the
+    # check opts out (noauto=1), so that a changed caller that starts calling them is judged instead of timing out
+    if chk.get('noauto', tier) != '1':
+        for g in unit.cfg.get('replace_always', []):
+            if g != chk.fn and g not in repl and contract_clauses(r.pp_text, g) is not None:
+                repl.append(g)
     if not inline_all:
         for g in repl:
             cmd += ['--replace-call-with-contract', g]
